@@ -132,3 +132,8 @@ theorem C03_verifiers_are_translated (names : List Name) (dialed : Name) (p : Ke
       cases spkiAlg <;> cases sigAlg <;> simp <;> (try (by_cases h1 : spki = p <;> by_cases h2 : signer = spki <;> simp [h1, h2]))
 
 end Anemo
+
+namespace Anemo
+/-- **The dial path and the pinned client configuration are the ones the event-order model was written for** (word for word, checked on this run): `dial_peer_task` (connect with the pinned configuration when an identity is named, then the acknowledgement), `handle_connecting_result` (register, then answer the caller with the connection's identity; answer the error otherwise), `add_peer`, and `client_config_with_expected_server_identity` (a fresh configuration per dial whose verifier carries the named identity). -/
+theorem C03_dial_path_is_pinned : Gen.dialingShapeChecked = true ∧ Gen.tlsConfigShapeChecked = true := ⟨rfl, rfl⟩
+end Anemo
